@@ -224,6 +224,28 @@ def rule_eligible_only(ctx):
         ctx.note("C11.2 construction of `leaders`: neither a filter_map chain nor a push loop - not decided")
         okf = True
     ctx.ob(R, "leaders = indices with leader flag", okf, ("an index enters `leaders` exactly when v.leader (%s form)" % shape if shape else "undecided shape (not reported)") if okf else "the leaders list is not built from exactly the validators flagged leader", n.loc())
+    # the indices handed out are positions in `vec` itself: every enumerate() in Schedule::new counts a plain traversal of the
+    # vector the Schedule stores. Counting a filtered / skipped / reversed sequence yields positions in *that* sequence, and
+    # view_leader (leaders[..]) or Signers (indexes[key]) would then address a different validator.
+    vec_term = None
+    for b in n.blocks:
+        for st in b["s"]:
+            if st["k"] == "assign" and st["r"]["k"] == "agg" and st["r"].get("def") == SCHED:
+                vec_term = dict(Tn.rvalue(st["r"])[3]).get("vec")
+    PLAIN = ("[T]::iter", "std::iter::IntoIterator::into_iter", "std::vec::Vec::iter", "std::ops::Deref::deref")
+    en = [Tn.args_of(c) for c in Tn.calls() if c["q"] == "std::iter::Iterator::enumerate"]
+    if en and vec_term is not None:
+        bad = []
+        for a in en:
+            r = a[0]
+            while r[0] == "call" and r[1] in PLAIN and r[2]:
+                r = r[2][0]
+            while r[0] in ("ref", "deref"):
+                r = r[1]
+            if r != vec_term:
+                bad.append(show(a[0])[:100])
+        ctx.ob(R, "indices are positions in vec", not bad, "every enumerate() in Schedule::new (%d) counts a plain traversal of the stored validator vector" % len(en) if not bad else
+               "an index list of the schedule is numbered over a derived sequence (%s), not over the stored validator vector: the indices address other validators" % bad[:2], n.loc())
     # leader_weight += v.weight only under v.leader
 
     def lm2(t):
